@@ -580,13 +580,14 @@ pub fn check_iter(prop: &str, case: &ConcCase, res: &IterResult) -> IterVerdict 
         c.merge(&ic);
     }
     // ---- C20: ordering of writes and handle drops, cancellation rule
-    if writer {
+    let relaxed = crate::sink::RELAXED_CLOCK.load(std::sync::atomic::Ordering::Relaxed);
+    if writer && !relaxed {
         let (wv, wc) = check_writer(&res.log);
         v.extend(wv);
         c.merge(&wc);
     }
     // ---- C21: local cancellation
-    if has_cancel {
+    if has_cancel && !relaxed {
         let (cv, cc) = check_cancel(case, res);
         v.extend(cv);
         c.merge(&cc);
@@ -1173,6 +1174,7 @@ pub fn conc_case(o: &Opts, case_seed: u64) -> CaseReport {
     let case = Arc::new(case);
     let prop = o.prop.clone();
     crate::sink::TRACE_DG.store(true, std::sync::atomic::Ordering::Relaxed);
+    crate::sink::RELAXED_CLOCK.store(o.sub.contains("tsan"), std::sync::atomic::Ordering::Relaxed);
 
     #[cfg(feature = "shuttle")]
     {
